@@ -214,3 +214,14 @@ def run(ctx, rep):
             rep.check(ok and bool(rem) and bool(ins), 'R-C11-4', '%s: the record gets %s before it is kept' % (member, what), ic.loc(),
                       'updated and re-keyed in %s' % keyset if ok and rem and ins else 'the record keeps its old value (updated: %s, removed from %s: %s, re-inserted: %s): the same difference is reported by every later scan' % (ok, keyset, bool(rem), bool(ins)),
                       function='scan_file', construct='%s converges' % member)
+
+    # every primitive that changes the recorded set of entities marks the scan as modified, whatever the entity looks like
+    rep.rule('R-C11-3w', 'scan primitives that insert or remove a recorded entity (file, link, empty directory) set need_write on every path to their return', 6)
+    for fn in ('scan_file_allocate', 'scan_file_deallocate', 'scan_link_insert', 'scan_link_remove', 'scan_emptydir_insert', 'scan_emptydir_remove'):
+        g_ = P.fn(fn)
+        rep.analysed(g_)
+        nws = [i for i in g_.all_insts() if i.op == 'store' and g_.expr(i.ops[1]).endswith('->need_write') and g_.const_of(i.ops[0]) == 1]
+        esc = g_.reach([g_.entry()], stop={x.id for x in nws}, include_start=True)
+        missed = [r_ for r_ in g_.returns() if r_.id in esc]
+        rep.check(bool(nws) and not missed, 'R-C11-3w', '%s always sets need_write' % fn, g_.file, '%d stores' % len(nws) if nws and not missed else 'a path reaches the return without scan->need_write = 1 (e.g. an entity without blocks): sync then ends with "Nothing to do" and never saves it',
+                  function=fn, construct='need_write on every path')
